@@ -1,7 +1,7 @@
 """Constants of the conversion path (get_data / to_nifti / from_dicom_wrapper) that are written as literals in
 the sources: default voxel order, xyzt units, the unsigned->signed dtype hack, the LPS->RAS diagonal, the
 phase-direction string, and the fact that the slice-time comparisons use np.allclose's default tolerances."""
-import ast
+import ast, re
 from fractions import Fraction
 from astlib import *
 
@@ -80,13 +80,14 @@ def emit(src):
     fd = [n for n in ast.walk(gd) if isinstance(n, ast.Assign) and ast.unparse(n.targets[0]) == 'file_dtypes']
     if len(fd) != 1 or not (isinstance(fd[0].value, ast.Call) and ast.unparse(fd[0].value.func) == 'set' and len(fd[0].value.args) == 1
                              and isinstance(fd[0].value.args[0], ast.GeneratorExp)
-                             and ast.unparse(fd[0].value.args[0].generators[0].iter) == 'self._files_info'):
-        raise TableError('get_data: file_dtypes is not a set over self._files_info')
+                             and re.fullmatch(r'self\.\w+', ast.unparse(fd[0].value.args[0].generators[0].iter))):
+        raise TableError('get_data: file_dtypes is not a set over the stack\'s file list')
+    files_attr = ast.unparse(fd[0].value.args[0].generators[0].iter)      # the (private) name of the file list does not matter
     bs = [n for n in ast.walk(gd) if isinstance(n, ast.Assign) and ast.unparse(n.targets[0]) == 'bits_stored']
     if len(bs) != 1 or not (isinstance(bs[0].value, ast.Call) and ast.unparse(bs[0].value.func) == 'max' and len(bs[0].value.args) == 1
                              and isinstance(bs[0].value.args[0], ast.GeneratorExp)
-                             and ast.unparse(bs[0].value.args[0].generators[0].iter) == 'self._files_info'):
-        raise TableError('get_data: bits_stored is not a max over self._files_info')
+                             and ast.unparse(bs[0].value.args[0].generators[0].iter) == files_attr):
+        raise TableError('get_data: bits_stored is not a max over the same file list')
     gm = [c for c in calls_in(gd, 'get_meta') if c.args and isinstance(c.args[0], ast.Constant) and c.args[0].value == 'BitsStored']
     c = _one(gm, "get_data get_meta('BitsStored')")
     dflt = lit(call_kw(c, 'default'))
